@@ -47,6 +47,14 @@ func runC01(w *World, r *Report) {
 	ruleFastLayout(w, r)
 	ruleKwType(w, r)
 	ruleBoolArity(w, r)
+	// variables read the value bound to their name (C11) and the built-in operators compute their
+	// documented functions (C17-C19): both are part of "the value the documented semantics assigns"
+	runC11(w, r)
+	ruleOvSym(w, r)
+	ruleInSets(w, r)
+	ruleSetShape(w, r)
+	runC18(w, r)
+	runC19(w, r)
 	if fn := w.Fn("(*Expr).Eval"); fn != nil {
 		if l, _ := recoverEvalLoop(w, fn); l != nil {
 			ruleScJump(w, r, l)
